@@ -166,6 +166,8 @@ def concretize(v, model, selectors):
             if z3.is_true(model.eval(g.z, model_completion=True)):
                 return x
         raise ValueError('no alternative selected')
+    if isinstance(v, tuple) and len(v) == 2 and v[0] == 'present-unless':
+        return not z3.is_true(model.eval(v[1], model_completion=True))
     if isinstance(v, z3.ExprRef):
         r = model.eval(v, model_completion=True)
         if z3.is_bool(r):
